@@ -154,9 +154,12 @@ ExactUnderCapacity == ~collapsed => Pts(ivs) = pts
 SubsetSound == \A o \in OperandsUpTo(Cap - 1) :
                   /\ JudgeSubset(ivs, o, IsSubsetOf(ivs, o))
                   /\ JudgeSubset(o, ivs, IsSubsetOf(o, ivs))
-\* is_subset_of is exact as long as the intersection does not collapse
+\* is_subset_of is exact as long as the intersection does not collapse and no two intervals touch: the points stand
+\* for an ordered universe that may be dense (floats), so [0,1] is not included in {0} u {1} for the implementation
+\* even though the two hold the same points of a discrete universe (sound, not complete: the property asks soundness)
+NoAdjacent(s) == \A i \in 1..(Len(s) - 1) : s[i][2] + 1 < s[i + 1][1]
 SubsetExact == \A o \in OperandsUpTo(Cap - 1) :
-                  (Len(o) + Len(ivs) < Cap) => (IsSubsetOf(o, ivs) <=> Pts(o) \subseteq Pts(ivs))
+                  (Len(o) + Len(ivs) < Cap /\ NoAdjacent(o) /\ NoAdjacent(ivs)) => (IsSubsetOf(o, ivs) <=> Pts(o) \subseteq Pts(ivs))
 ContainsExact == \A v \in Points : JudgeContains(ivs, v, HasValue(ivs, v))
 ContainsOwn == \A v \in Points : HasValue(UnionInterval(<< >>, v, v), v)
 \* the judges hold of the model's own transitions
